@@ -210,6 +210,38 @@ def run(chk):
                         chk.fail("sweep speed used by the evolution equals -d(m_to)/dt (%s)" % (
                             "main model" if key == "speed_main" else "initial-BH-population model"),
                             dict(feh=me["feh"], t=me["t"]), dict(used=me[key], finite_difference=me["finite_diff"]))
+    # ---- IMFs reaching above the heaviest tabulated BH progenitor (the property quantifies over masses up to 300) -------------
+    for feh in ([rows[0][0], rows[15][0]] if chk.tier == "quick" else [r[0] for r in rows[::3]]):
+        a0, a1, a2 = [r for r in rows if r[0] == feh][0][1:]
+        try:
+            car = U.base_emf(FeH=feh, m_breaks=[0.1, 0.5, 1.0, 300.0], nbins=[3, 3, 14])
+        except Exception as e:  # noqa
+            chk.notes.append("wide-IMF carrier could not be built at FeH=%s: %s" % (feh, type(e).__name__))
+            continue
+        mb = car.massbins
+        y0 = mb.initial_values(N0=car.N0)
+        t_lo, t_hi = float(car.compute_tms(299.0)), float(car.compute_tms(120.0))
+        for _ in range(8 if chk.tier == "quick" else 40):
+            t = t_lo * (t_hi / t_lo) ** rng.random()
+            isev = int(np.where(t > car.tms_u)[0][0])
+            mto = float(car.compute_mto(np.array(t)))
+            m1 = float(mb.bins.MS.lower[isev])
+            Ns, alpha, Nr, Mr = mb.unpack_values(y0.copy(), grouped_rem=True)
+            if not (mto > m1 * (1 + 1e-6)):
+                continue
+            try:
+                dNs = mb.unpack_values(car._derivs_sev(t, y0.copy()), grouped_rem=True)[0]
+            except ValueError:
+                continue          # remnant of an extrapolated IFMR outside the BH bins (C09 / C04)
+            dNdm = float(Ns[isev] / Pk(alpha[isev], 1, m1, mto) * mto ** alpha[isev])
+            used = float(-dNs[isev] / dNdm)
+            h = t * 1e-6
+            fd = -float(car.compute_mto(np.array(t + h)) - car.compute_mto(np.array(t - h))) / (2 * h)
+            chk.count("sweep speed vs finite difference (IMF up to 300 Msun)")
+            chk.note_distinct(dict(feh=feh, t=t, mmax=300))
+            if abs(used - fd) > 1e-5 * abs(fd):
+                chk.fail("sweep speed used by the evolution equals -d(m_to)/dt (main model)", dict(feh=feh, t=t, m_to=mto, mmax=300.0),
+                         dict(used=used, finite_difference=fd))
     chk.correspondence("dmdt (1e-8) vs the speed observed in _derivs_sev and in the captured _derivs_BHs", ncmp, dis)
     chk.trusted += [
         "translators harness/gen_tables.py (msto.dat -> exact decimals) and harness/gen_formulas.py (ast -> Gallina)",
